@@ -15,8 +15,8 @@ func TestMain(m *testing.M) {
 	os.Exit(code)
 }
 
-var rs = []int64{0, 0, 5, 50, 50}
-var ds = []int64{0, 0, 3, 5, 50, 80}
+var rs = []int64{0, 0, 5, 50, 50, 3600e9, 36000000e9}
+var ds = []int64{0, 0, 3, 5, 50, 80, 1800e9, 36000000e9}
 
 func genOp(n int) *rapid.Generator[Op] {
 	return rapid.Custom(func(t *rapid.T) Op {
